@@ -8,3 +8,20 @@ open ZnVerif.Properties.C01
 #print axioms arith_on_non_number_is_error
 #print axioms intdiv_and_mod_formulas
 #print axioms order_on_non_number_is_error
+#print axioms eval_refines_spec
+#print axioms eval_value_refines_spec
+#print axioms eval_error_refines_spec
+#print axioms eval_pure_outcomes
+#print axioms spec_outcome_is_models
+#print axioms eval_fuel_refines_spec_partial
+#print axioms eval_refines_spec_scalar
+#print axioms eval_fuel_refines_spec_full_fails
+#print axioms initial_states_related
+#print axioms xeq_total_on_plain
+#print axioms xeq_types_differ_false
+#print axioms spec_types_differ_false
+#print axioms spec_and_short_circuit
+#print axioms spec_or_short_circuit
+#print axioms spec_div_zero
+#print axioms spec_floor_div
+#print axioms spec_modulo
